@@ -54,6 +54,22 @@ SEEDS = {
              "the in-progress view of the newest frame after its Frame End, when that frame has items"),
     "C17b": ("C17", "frame_counts: the follower's event count starts from the leader's present-frame count",
              "an Ice Climbers port whose leader has absences: declared raw length too small"),
+    "C07b": ("C07", "io::expect_bytes rewritten as a zip over r.bytes(): a stream that ends early compares only the bytes it has and returns Ok",
+             "a finished .slp cut exactly one byte before its end (the closing brace is the last read of the file): Ok(game) instead of Err"),
+    "C08b": ("C08", "parse_start: new check_payload_sizes rejects a known event declared longer than the newest layout unless the replay's major version equals the newest known major",
+             "a replay of major version 4+ whose known events carry trailing bytes"),
+    "C09b": ("C09", "assert_max_version compares only major.minor (version.lt(3, 17))",
+             "versions 3.16.1 ..= 3.16.255 written with either writer"),
+    "C10b": ("C10", "skip-frames path with hashing: the skipped region is read in 8 KiB pieces without clamping the last read to the bytes still to skip",
+             "skip_frames together with compute_hash on a replay whose frame region is not a multiple of 8192 bytes"),
+    "C11b": ("C11", "skip-frames path hashes the skipped region only up to 1 MiB and seeks (dropping the digest) beyond that",
+             "compute_hash + skip_frames on a replay whose frame region exceeds 1,048,576 bytes"),
+    "C15b": ("C15", "rollbacks_: seen-table turned into a bitset that is toggled (^=) instead of set",
+             "a frame id that occurs three or more times"),
+    "C19b": ("C19", "player(): netplay name and connect code are decoded from the first 30 / 9 bytes of their 31 / 10-byte fields",
+             "a netplay name or connect code that fills its whole field (no NUL before the last byte)"),
+    "C20b": ("C20", "parse_u8 hand-rolled: up to three digits accumulated in a u16 and cast with `as u8`",
+             "a version component in 256..=999, e.g. \"256.0.0\" parses as 0.0.0"),
     "C20": ("C20", "Version::lt rewritten as `self.0 < major || self.1 < minor`",
             "a version whose major is above the threshold's major and whose minor is below the threshold's minor, e.g. 4.0 vs (3, 7)"),
 }
